@@ -6,6 +6,6 @@ for p in ${@:-C01 C02 C03 C04 C05 C06 C07 C08 C09 C10 C11 C12 C13 C14 C15 C16 C1
   VERIF_COVERAGE=$d VERIF_JOBS=${VERIF_JOBS:-6} ./check $p > /tmp/cov_$p.log 2>&1
   echo "$p rc=$? $(tail -1 /tmp/cov_$p.log)"
   harness/anchor_coverage.py $p $d > coverage/$p.txt 2>&1; head -1 coverage/$p.txt
-  rm -rf $d
+  mkdir -p /tmp/cov_union; cp $d/.coverage.* /tmp/cov_union/ 2>/dev/null; cp $d/coveragerc /tmp/cov_union/coveragerc; sed -i 's#data_file = .*#data_file = /tmp/cov_union/.coverage#' /tmp/cov_union/coveragerc; rm -rf $d
 done
-git checkout -- evidence 2>/dev/null
+harness/anchor_coverage.py ALL /tmp/cov_union > coverage/ALL.txt 2>&1; head -1 coverage/ALL.txt; rm -rf /tmp/cov_union
